@@ -4,8 +4,20 @@ One request per line, one response per line. The Rust harness implements the sam
 the real crate and diffs the two response streams.
 -/
 import Driver.Codec
+import EvalexprVerif.Spec.RefArith
 
 open Evalexpr Evalexpr.Codec
+
+def binOpOf : String → Option Spec.BinOp
+  | "+" => some .add | "-" => some .sub | "*" => some .mul | "/" => some .div | "%" => some .mod
+  | "^" => some .exp | "==" => some .eq | "!=" => some .neq | ">" => some .gt | "<" => some .lt
+  | ">=" => some .geq | "<=" => some .leq | "&&" => some .and | "||" => some .or | _ => none
+
+def encRef : Spec.RefOutcome → String
+  | .value v => "value " ++ encValue v
+  | .arith => "arith"
+  | .type => "type"
+  | .valueOrArith v => "value-or-arith " ++ encValue v
 
 def userFnOfSpec (spec : String) : Option UserFn :=
   match spec.toList with
@@ -146,6 +158,15 @@ def handle (sess : Session) (line : String) : Session × String :=
     | some k, .ok n => (sess, "ok " ++ encNode (n.renameDesc k (· ++ hexArg suffix)))
     | some _, .error e => (sess, "err " ++ encErr e)
     | none, _ => (sess, "bad-op")
+  | ["spec.binop", op, a, b] =>
+    match binOpOf (String.ofList (hexArg op)), decValueStr a, decValueStr b with
+    | some o, some x, some y => (sess, encRef (Spec.refBinary o x y))
+    | _, _, _ => (sess, "bad-op")
+  | ["spec.unop", op, a] =>
+    match op, decValueStr a with
+    | "neg", some x => (sess, encRef (Spec.refUnary .neg x))
+    | "not", some x => (sess, encRef (Spec.refUnary .not x))
+    | _, _ => (sess, "bad-op")
   | ["f64parse", w] =>
     (sess, match F64.parseBits (hexArg w) with
       | some b => if (b &&& 0x7fffffffffffffff) > 0x7ff0000000000000 then "nan" else hex16 b
